@@ -136,10 +136,14 @@ func ascEnc(k aacCfg) (string, []byte) {
 	return s, out
 }
 
+// adtsStreamCfgs: what ASC() reported after each frame of the last adtsStream call.
+var adtsStreamCfgs []aacCfg
+
 // adtsStream is the documented caller loop: decode until nothing is left.
 // It also reports whether every non-empty remainder started at a sync word.
 func adtsStream(st aacCfg, data []byte) (res string, raws [][]byte, lefts [][]byte) {
 	a := newADTS(st)
+	adtsStreamCfgs = adtsStreamCfgs[:0]
 	res = h.Safe(func() string {
 		left := data
 		for len(left) > 0 {
@@ -149,6 +153,7 @@ func adtsStream(st aacCfg, data []byte) (res string, raws [][]byte, lefts [][]by
 			}
 			raws = append(raws, r)
 			lefts = append(lefts, l)
+			adtsStreamCfgs = append(adtsStreamCfgs, cfgOf(a.ASC()))
 			left = l
 		}
 		if len(raws) == 0 {
@@ -540,6 +545,9 @@ func c11(c *h.Ctx) {
 		var raws [][]byte
 		var bounds []int
 		var desc []string
+		var wantCfgs []aacCfg
+		var prevO uint8
+		var prevS, prevCh int
 		for j := 0; j < k; j++ {
 			var n int
 			switch r.Intn(10) {
@@ -551,6 +559,21 @@ func c11(c *h.Ctx) {
 				n = 1 + r.Intn(40)
 			}
 			o, s, ch := aacObjs[r.Intn(5)], 1+r.Intn(12), 1+r.Intn(7)
+			if j > 0 && r.Chance(60) {
+				// same stream, ONE field of the configuration changes (a decoder that keys anything on part of the
+				// header must notice each of them): profile, frequency index, or channels by a small step
+				o, s, ch = prevO, prevS, prevCh
+				switch r.Intn(4) {
+				case 0:
+					o = aacObjs[r.Intn(5)]
+				case 1:
+					s = 1 + r.Intn(12)
+				case 2:
+					ch = 1 + (ch-1+r.Pick(1, 2, 3, 4))%7
+				}
+			}
+			prevO, prevS, prevCh = o, s, ch
+			wantCfgs = append(wantCfgs, aacCfg{aacProfileOf(o) + 1, uint8(s), uint8(ch)})
 			var w []byte
 			if r.Bool() {
 				_, raw := payload(r, n)
@@ -579,6 +602,10 @@ func c11(c *h.Ctx) {
 			ok = bytes.Equal(got[j], raws[j]) && bytes.Equal(lefts[j], data[bounds[j]:]) && (len(lefts[j]) == 0 || startsWithSync(lefts[j]))
 		}
 		c.Hold(ok, "adts.concat", in, h.Trunc(res, 160), fmt.Sprintf("%d frames, each remainder at the next sync word", k))
+		if ok {
+			// after each frame the decoder reports THAT frame's profile, frequency index and channels
+			c.Hold(fmt.Sprint(adtsStreamCfgs) == fmt.Sprint(wantCfgs), "adts.stream_reports_config", in+" "+h.Trunc(h.Hex(data), 4000), fmt.Sprint(adtsStreamCfgs), fmt.Sprint(wantCfgs))
+		}
 		eq("adts.stream", in, res, c.O.Call("adts.stream", "0.0.0", h.Hex(data)))
 		c.Case(fmt.Sprintf("stream/frames=%d", k), in+fmt.Sprint(len(data)), true)
 	}
